@@ -231,6 +231,15 @@ func runC19(r *Report) {
 			if len(deleteTargets(ci)) > 0 {
 				c.Name = "Delete" // a delete wrapper of the repository
 			}
+			if c.Name == "Delete" {
+				// who may release a claim: the owner-verified delete and the creator undoing its own claim.
+				// A read path or a repair routine that deletes the index because "the record is missing"
+				// releases the claim of a create that has claimed the name and not yet written the record.
+				allowed := map[string]bool{"DeleteMapping": true, "CreateMapping": true}
+				top := Outermost(u.Parent())
+				okWho := allowed[top.Name()] || onlyCalledFromAllowed(r.P, top, allowed, 2)
+				r.Ob("R-C19-3", CallPos(ci), okWho, "the domain index (the claim on a name) is deleted only on the owner-verified delete path or by the create that made the claim, here in "+top.Name(), r.P.FuncName(u.Parent()), "claim-released-by:"+top.Name())
+			}
 			ok := c.Name == "SetNX" || c.Name == "Get" || c.Name == "Exists" || c.Name == "Delete"
 			r.Ob("R-C19-2", CallPos(ci), ok, "domain index key is passed to "+c.Name+" (allowed: SetNX, Get, Exists, Delete; a plain Set could overwrite another owner's claim)", r.P.FuncName(u.Parent()), "index-key-use:"+c.Name)
 		}
@@ -671,6 +680,42 @@ func runC19(r *Report) {
 				r.Fail("R-C19-5", c.Pos(), "Register decides through Lookup(), which takes and releases the read lock before the insert: two clients claiming the same name both pass", "DomainRegistry.Register", "claim-in-one-section")
 			}
 		})
+		// a refused registration leaves the registry as it was: nothing Register writes into the
+		// registry's tables is on the way to a return that reports an error (an index entry recorded for a
+		// claim that is then refused points at the owner's name and is trusted by a later unregister)
+		var muts []ssa.Instruction
+		Instrs(rg, func(in ssa.Instruction) {
+			switch x := in.(type) {
+			case *ssa.MapUpdate:
+				if t, _, _, ok := FieldOf(x.Map); ok && t == "DomainRegistry" {
+					muts = append(muts, in)
+				}
+			case *ssa.Call:
+				if b, ok := x.Call.Value.(*ssa.Builtin); ok && b.Name() == "delete" {
+					if t, _, _, ok := FieldOf(x.Call.Args[0]); ok && t == "DomainRegistry" {
+						muts = append(muts, in)
+					}
+				}
+			}
+		})
+		nRef := 0
+		for _, ret := range Returns(rg) {
+			if RetErrKind(ret) != "nonnil" {
+				continue
+			}
+			nRef++
+			var first ssa.Instruction
+			for _, m := range muts {
+				if (m.Block() == ret.Block()) || CanReachBlock(m.Block(), ret.Block()) {
+					first = m
+				}
+			}
+			pos := ret.Pos()
+			if first != nil {
+				pos = first.Pos()
+			}
+			r.Ob("R-C19-5", pos, first == nil, "a refused Register (error return) is not preceded by a write into the registry's tables", "DomainRegistry.Register", fmt.Sprintf("refusal-changes-nothing:%d", nRef))
+		}
 	}
 	r.Floor("R-C19-5", 8, "legacy registry accesses")
 }
